@@ -190,6 +190,10 @@ impl Equalizer {
         self.feedback_coeff.identity();
         self.feedforward_wind.reset();
         self.feedback_wind.reset();
+        if self.is_training() {
+            // abandon any training in progress
+            self.mode = EqualizerState::EnabledFeedback;
+        }
     }
 
     /// Enable or disable the adaptive algorithm
